@@ -74,7 +74,8 @@ CHECKS = {
              'families (standard, cogeneration, heat, heat pump, chiller, district heating, add-ons, S-DAC-GT, SBT, SUTRA, overpressure, '
              'HIP-RA-X) x {below min, min, max, above max, non-member, unit-suffixed above max} - is executed completely through the real '
              'Model()+read_parameters and every outcome validated by TraceReadParam.tla; a seeded subset goes end-to-end through the '
-             'client (RuntimeError, no report).',
+             'client (RuntimeError, no report). Names the readers accept for a parameter besides its declared one (found by an AST scan of the '
+             'tree under test and a probe read) get the same case list.',
         note='Exhaustive over the declared scalar numeric/option parameters (finite). List parameters out of scope. Documented internal '
              'rescalings (depth, impedance x1000) are a table in the harness. Trusted: TLC, BigInteger rationals.',
         tech='TLA+ decision-table spec (ReadParam.tla) model-checked with TLC; exhaustive boundary matrix run through the code and validated by TLC (TraceReadParam.tla)'),
@@ -85,7 +86,7 @@ CHECKS = {
              'TLC dumps are replayed through real caching and non-caching GeophiresXClient objects over 9 input families incl. failing '
              'requests and file rewrites, and the recorded histories validated by TraceClient.tla (restore, freshness against a stand-alone '
              'reference run, purity of the outcome); contamination sequences in one process and CLI sub-processes under 3 hash seeds x 2 '
-             'start directories are validated by TraceHistory.tla (same input => same result). Pairs of parameters whose reading interferes (one writes the other, or both write a third: discovered through the real reader) are given conflicting values and run under 4-7 hash seeds.',
+             'start directories are validated by TraceHistory.tla (same input => same result). Pairs of parameters whose reading interferes (one writes the other, or both write a third: discovered through the real reader) are given conflicting values and run under 4-7 hash seeds. Failed runs are also produced at seeded crash points (a failure raised at a line of each module\'s Calculate that a recorded run executes), each followed by a reference input whose full-precision digest, cwd and argv must be unchanged.',
         note='Histories for replay are sampled by seed from the exhaustive TLC dump (quick 110, thorough 1600). Results compared as report '
              'text without date/time lines.',
         tech='TLA+ spec (Client.tla) model-checked with TLC; TLC-generated histories replayed into the real client; TLC trace validation'),
@@ -120,7 +121,7 @@ CHECKS = {
              'prices do not occur in the definition); run pairs and short ladders on seeded bases over all economic models and end-uses are '
              'executed for real and validated by TraceRelation.tla: all costs x k => LC x k, prices + delta => LC equal and NPV strictly in the '
              'same direction (energy sold positive), efficiency / 2 => LCOH x 2, null add-on / zero-rate tax credit / zero grant => every '
-             'reported economic figure and the whole cash-flow series unchanged.',
+             'reported economic figure and the whole cash-flow series unchanged. Price pairs also run on bases that restate an end-use option next to a plant type of another kind.',
         note='Homogeneity pairs make every cost an input (totals, well/stimulation, purchase rates, fees, grants). Relations to 1e-9 relative. '
              'Bases sampled by seed (quick 60).',
         tech='TLA+ lemmas model-checked with TLC (Levelized.tla); TLC validation of real run pairs (TraceRelation.tla)'),
@@ -187,7 +188,7 @@ CHECKS = {
              'layouts), WellCost.tla (17 correlations non-decreasing on 500..7000 m, every grid point replayed into the real function), '
              'Levelized.tla (MonotoneInCost); ladders of real runs differing in one parameter are validated by TraceRelation.tla: bht/gradient, '
              'bht/depth (incl. multi-segment columns with binding caps), TDP drawdown at every time step, initial production temperature / '
-             'flow, well cost / depth for each correlation, NPV and levelized costs / 31 cost inputs and adjustment factors.',
+             'flow, well cost / depth for each correlation, NPV and levelized costs / 31 cost inputs and adjustment factors (cogeneration with the plant-cost split given and left to the model).',
         note='Known findings: gradient ladder crossing 1.0 (unit heuristic); drawdown ladder in the regime Trock <= Tinj. Ladders sampled by seed.',
         tech='TLA+ lemmas model-checked with TLC (Resource, WellCost, Levelized); TLC validation of real run ladders (TraceRelation.tla)'),
     'C19': dict(
@@ -197,12 +198,12 @@ CHECKS = {
              'the real Model() + read_parameters (same classes, same failing combinations), yielding the reachable module classes; the '
              'generated schemas, the committed files and the live ParameterDicts are then validated by TraceSchema.tla: schema names = union '
              'of accepted names (offenders named), type/default/unit/bounds of identically defined parameters = live declarations (exact), '
-             'committed = generated, every result-schema field extractable by the real client (synthetic one-field reports). Also HIP-RA-X. Schemas are generated cold and after simulations ran in the same process; the schema minimum / maximum written with the schema unit are read through the real reader and must be accepted and stored, the next doubles outside refused (C19_enforced).',
+             'committed = generated, every result-schema field extractable by the real client (synthetic one-field reports). Also HIP-RA-X. Schemas are generated cold and after simulations ran in the same process; the schema minimum / maximum written with the schema unit are read through the real reader and must be accepted and stored, the next doubles outside refused, and twice the maximum / half a positive minimum written in every other listed unit of the same quantity refused (C19_enforced).',
         note='Finite and complete in both tiers. Known findings: Maximum Drawdown maximum, two enum defaults serialised as empty strings.',
         tech='TLA+ spec (Pipeline.tla) model-checked with TLC and confirmed configuration by configuration on the code; TLC set/attribute validation (TraceSchema.tla)'),
     'C20': dict(
         cat='model_checking', ref='DESIGN.md section 5 C20',
-        text='Entry.tla (4 entry points x 3 output-argument kinds x 2 start directories x ok / fail-at-read / fail-at-calculate, OutPath '
+        text='Entry.tla (4 entry points x 7 output-argument kinds (none, relative, absolute, extensionless under dotted directories, a name beginning with ~, a symbolic link) x 2 start directories x ok / fail-at-read / fail-at-calculate, OutPath '
              'resolution) is model-checked and its reachable matrix dumped; every cell is executed for real (python -m geophires_x '
              'sub-processes with the guard off, in-process client, the run embedded in a Monte Carlo work package, direct pipeline) and '
              'TraceEntry.tla checks same report, same JSON, files created exactly where OutPath says, non-zero exit / exception and no '
